@@ -92,6 +92,10 @@ func toNumber(v any) any {
 		uint:
 		return v
 	case string:
+		if !isJSONNumber(v) {
+			return nil
+		}
+
 		var d decimal128.Decimal
 		if err := d.UnmarshalJSON([]byte(v)); err != nil {
 			return nil
@@ -101,6 +105,58 @@ func toNumber(v any) any {
 	}
 
 	return nil
+}
+
+// isJSONNumber reports whether s is a number as defined by the JSON grammar.
+func isJSONNumber(s string) bool {
+	i := 0
+	if i < len(s) && s[i] == '-' {
+		i++
+	}
+
+	if i == len(s) {
+		return false
+	}
+
+	if s[i] == '0' {
+		i++
+	} else if s[i] >= '1' && s[i] <= '9' {
+		for i < len(s) && s[i] >= '0' && s[i] <= '9' {
+			i++
+		}
+	} else {
+		return false
+	}
+
+	if i < len(s) && s[i] == '.' {
+		i++
+		start := i
+		for i < len(s) && s[i] >= '0' && s[i] <= '9' {
+			i++
+		}
+
+		if i == start {
+			return false
+		}
+	}
+
+	if i < len(s) && (s[i] == 'e' || s[i] == 'E') {
+		i++
+		if i < len(s) && (s[i] == '+' || s[i] == '-') {
+			i++
+		}
+
+		start := i
+		for i < len(s) && s[i] >= '0' && s[i] <= '9' {
+			i++
+		}
+
+		if i == start {
+			return false
+		}
+	}
+
+	return i == len(s)
 }
 
 func toString(v any) (any, error) {
